@@ -126,6 +126,20 @@ def verify(contract, name, timeout_s=10.0, n_selfcheck=60, seed=0, gen_concrete=
         # the unbounded proof is not available (anchor moved / unsupported construct):
         # still look for a concrete failing input; none found => undecided, never a violation
         found = _bounded_search(contract, None)
+        if found is None and getattr(contract, "native_search", None):
+            found = contract.native_search(None, canary=False)
+        if found is None and gen_concrete and contract.native_check:
+            # the proof is unavailable for this source text: run the contract natively on random concrete inputs (a witness is a violation;
+            # no witness leaves the obligation undecided)
+            rng = random.Random(seed * 7919 + 23)
+            for _ in range(400):
+                na = gen_concrete(rng)
+                oc = native_outcome(contract, na)
+                chk = contract.native_check(na, oc)
+                bad = [k for k, v in chk.items() if v is False]
+                if bad:
+                    found = dict(args=na, outcome=oc, clause=bad[0])
+                    break
         if found is not None:
             return [ObResult(name=f"{name}/{found['clause']}", status=R.REFUTED,
                              witness=dict(args=repr(found["args"]), outcome=repr(found["outcome"])),
